@@ -28,6 +28,7 @@ func c05Opts(rng *vlib.Rng) idl.GenOpts {
 	o.HexIDs = true
 	o.DottedFiles = rng.Chance(1, 3)
 	o.SameBaseClash = true
+	o.PrefixEnums = true
 	return o
 }
 
